@@ -227,4 +227,28 @@ def run(tier):
                     res.instance("C16.R3", "canResend: allowed at line %s under %s" % (
                         ln, sorted(t_ for (t_, tr) in facts if tr and "hsState" in t_) or "no state test"), ok, finding=f_)
     res.floor("C16.R3", 6)
+    # ------------------------------------------------------------------ R4
+    res.rule("C16.R4", "a duplicated HelloVerifyRequest does not regress the client: it is taken as the next message only while no cookie is stored")
+    ph = prog.fn("parseSSLHandshake")
+    gfp = cu.guard_facts(ph)
+    HVR = prog.const("SSL_HS_HELLO_VERIFY_REQUEST")
+    n4 = 0
+    for b in ph.blocks:
+        facts = gfp.get(b["id"], frozenset())
+        if not any(tr and t_.endswith(" == %d)" % HVR) and "hsType" in t_ for (t_, tr) in facts):
+            continue
+        for i, ln, x in cu.block_exprs(b):
+            for n in walk(x):
+                if n.get("k") == "bin" and n["op"] == "=" and (strip(n["l"]) or {}).get("f") == "hsState":
+                    n4 += 1
+                    ok = ("ssl->haveCookie", False) in facts or ("(ssl->haveCookie == 0)", True) in facts
+                    f_ = None
+                    if not ok:
+                        f_ = Finding(PROP, "C16.R4", ph.name, "repeated HelloVerifyRequest re-parsed",
+                                     "%s:%s parseSSLHandshake(): a HelloVerifyRequest received while expecting ServerHello becomes the "
+                                     "current message without the fact ssl->haveCookie == 0: a duplicate (delayed or retransmitted) "
+                                     "HelloVerifyRequest makes the client answer it again, its message_seq runs ahead of the server's and the "
+                                     "handshake never completes" % (ph.relfile, ln), file=ph.relfile, line=ln)
+                    res.instance("C16.R4", "parseSSLHandshake:%s hsState = HELLO_VERIFY_REQUEST under haveCookie == 0" % ln, ok, finding=f_)
+    res.floor("C16.R4", 1)
     return res.finish()
